@@ -131,7 +131,10 @@ def struct_basic(g, n_cp=None, shape=None, fields=None, rich=True):
             it.attrs.append(Instr(nm, "ghosts", container=r.choice(cps), entries=entries()))
     if rich and g.chance(0.2):
         it.generics = "<T>"
-        it.attrs.append(Instr("where_clause", "where_clause", container=(r.choice(cps) if g.chance(0.4) else None), preds=f"T: W{g.mark()}"))
+        if g.chance(0.7):
+            it.attrs.append(Instr("where_clause", "where_clause", container=(r.choice(cps) if g.chance(0.4) else None), preds=f"T: W{g.mark()}"))
+        if g.chance(0.5):
+            it.where = f"T: Ow{g.mark()}"      # the type's own where clause
     if rich:
         add_params(g, it)
     r.shuffle(it.attrs) if g.chance(0.5) else None
@@ -198,7 +201,8 @@ def struct_children(g, n_cp=None):
         it.fields.append(f)
 
     def cp_entries():
-        return [dict(path=p, ty=f"T{g.mark()}", hint=None) for p in paths]
+        # generic arguments in turbofish form: the path is also used in expression position (README 'Generics' does the same for the counterpart)
+        return [dict(path=p, ty=f"T{g.mark()}" + r.choice(["", "", "", "::<i32>", "::<u8>", "::<'x, u8>"]) if g.chance(0.85) else f"m::T{g.mark()}", hint=None) for p in paths]
     if dedicated:
         for c in cps[:2]:
             it.attrs.append(Instr("child_parents", "child_parents", container=c, entries=cp_entries()))
@@ -331,4 +335,24 @@ def gen(g, profile=None):
     profile = profile or g.pick(["struct_basic", "struct_basic", "struct_children", "struct_parents", "enum_basic", "enum_basic", "enum_prim"])
     it = PROFILES[profile](g)
     it.meta["profile"] = profile
+    return it
+
+
+FOREIGN_ATTRS = ['serde(rename = "x")', 'doc = "text"', 'deprecated = "x"', 'must_use = "x"', "allow(dead_code)", "repr(C)", "cfg_attr(test, derive(Debug))", "doc(hidden)", "non_exhaustive",
+                 "table_name = schema::ENTITIES", 'note = concat!("a", "b")', "builder(default)", "validate(length(min = 1))", "pin_project", 'path = "x.rs"', "rustfmt::skip"]
+TYPE_ONLY_FOREIGN = {"must_use", "repr", "non_exhaustive", "table_name", "pin_project"}
+
+
+def add_foreign(g, it, n=1):
+    """attributes that belong to the compiler or to other macros; o2o has to leave them alone"""
+    from .model import Instr
+    for _ in range(n):
+        fa = g.pick(FOREIGN_ATTRS)
+        name = fa.split("(")[0].split(" ")[0].split(":")[0]
+        members = it.fields if it.kind == "struct" else it.variants
+        if name in TYPE_ONLY_FOREIGN or not members or g.chance(0.5):
+            it.attrs.insert(g.r.randint(0, len(it.attrs)), Instr("foreign", "foreign", text=fa))
+        else:
+            m = g.pick(members)
+            m.attrs.insert(g.r.randint(0, len(m.attrs)), Instr("foreign", "foreign", text=fa))
     return it
